@@ -116,4 +116,25 @@ PROPS = {
         "floor": {"quick": 50, "thorough": 1000},
         "assumptions": COMMON_ASSUME + SCHED_ASSUME,
     },
+    "C11": {
+        "level": "fault_enumeration",
+        "stages": [hist("crash", "crash::crash_c11", 40, 400, quick_ms=45000, thorough_ms=1500000)],
+        "rule": "case = one kill point: a snapshot of the disk taken before a mutation (create, each write plus torn variants with 1, n/2, n-1 bytes of it, rename, permission change, each command output) of an interrupted build/clean, audited (cache names, content containment) and recovered from (build-all must succeed and equal the from-scratch model; then edit/build/revert/build probe). Within one interrupted invocation the enumeration of kill points is complete; scenarios (graph, prior history, interrupted operation, schedule) are sampled. Distinct by (scenario, mutation index, schedule, torn length); snapshots whose disk equals an earlier one of the same scenario are skipped; non-trivial when at least one mutation had completed",
+        "floor": {"quick": 1000, "thorough": 20000},
+        "assumptions": COMMON_ASSUME + ["a kill loses no completed system call (no power-loss reordering); a write in flight may be torn at byte granularity; commands replace each output atomically"],
+    },
+    "C17": {
+        "level": "exploration",
+        "stages": [hist("contra", "contra::contra_c17", 1200, 12000)],
+        "rule": "case = one forced re-execution of a rule on byte-identical declared sources after its undeclared input changed (every subset of the rule's outputs, the empty one included, can depend on that input); the build must report one contradiction naming exactly the differing targets, keep the decoded record equal, leave independent rules right and reproduce the old outputs once the input is restored; distinct by (graph shape, subset, case); non-trivial when the command really re-ran and at least one output depends on the undeclared input",
+        "floor": {"quick": 50, "thorough": 1000},
+        "assumptions": COMMON_ASSUME,
+    },
+    "C18": {
+        "level": "exploration",
+        "stages": [hist("pair", "pair::pair_c18", 250, 5000)],
+        "rule": "case = one history run in lock step on two identical workspaces, one as is and one with the file-state table erased before every build, alternating between the two clock models (every write distinct / one tick per user action or invocation); verdict and all workspace bytes compared after every build, every hash handed to a dependent compared with the file's true hash; distinct by (graph shape, history, clock model); non-trivial when some build restored at least one file from the cache",
+        "floor": {"quick": 100, "thorough": 2000},
+        "assumptions": COMMON_ASSUME + ["user actions and invocations are separated by at least one clock tick in both clock models"],
+    },
 }
